@@ -126,6 +126,23 @@ pub fn exec_serde<S: Sc + Bits + Serialize + DeserializeOwned>(op: &str, f: &str
             };
             Some(Val::Tup(vec![Val::B(ok), Val::B(same)]))
         }
+        // serde_flatten(D): the Decomposed value embedded with #[serde(flatten)] next to another field round-trips
+        // (serde then forwards only the field names the Deserialize impl announces)
+        ("serde_flatten", [d]) => {
+            #[derive(Serialize, serde::Deserialize)]
+            struct Wrap<T> { tag: u32, #[serde(flatten)] inner: T }
+            let c = all_comps(d)?;
+            let ok = match d {
+                Val::DQ(t) => { let w = Wrap { tag: 7, inner: *t }; let txt = serde_json::to_string(&w).ok()?;
+                    match serde_json::from_str::<Wrap<DecQ<S>>>(&txt) { Ok(b) => b.tag == 7 && all_comps(&Val::DQ(b.inner))?.iter().zip(c.iter()).all(|(p, q)| p.bits() == q.bits()), Err(_) => false } }
+                Val::D3(t) => { let w = Wrap { tag: 7, inner: *t }; let txt = serde_json::to_string(&w).ok()?;
+                    match serde_json::from_str::<Wrap<Dec3<S>>>(&txt) { Ok(b) => b.tag == 7 && all_comps(&Val::D3(b.inner))?.iter().zip(c.iter()).all(|(p, q)| p.bits() == q.bits()), Err(_) => false } }
+                Val::D2(t) => { let w = Wrap { tag: 7, inner: *t }; let txt = serde_json::to_string(&w).ok()?;
+                    match serde_json::from_str::<Wrap<Dec2<S>>>(&txt) { Ok(b) => b.tag == 7 && all_comps(&Val::D2(b.inner))?.iter().zip(c.iter()).all(|(p, q)| p.bits() == q.bits()), Err(_) => false } }
+                _ => return None,
+            };
+            Some(Val::Tup(vec![Val::B(ok)]))
+        }
         // serde_dec_malformed(D, T kind): input that is not an object with three well-typed fields is never accepted
         ("serde_dec_malformed", [d, Val::T(kind)]) => {
             let full = with_typed!(d, t, serde_json::to_value(t).ok()?);
